@@ -180,7 +180,10 @@ let op_sb_probe a =
     let (r, s') = sb_eval sb_cur_facts (nat_of_int 40) fr e s in
     let changed = (s'.sbs_shared <> s.sbs_shared) || (s'.sbs_extern <> s.sbs_extern) in
     (* the console handler serialises the returned object with all its fields: modelled here, outside the evaluator *)
-    let hidden = (s'.sbs_reads <> s.sbs_reads) || (str a "kind" "" = "retobj" && mode = "console") in
+    let console_reads = match r with
+      | SbROk v when mode = "console" -> sb_console_result sb_cur_facts sb_cur_console_returns_hidden v
+      | _ -> [] in
+    let hidden = (s'.sbs_reads <> s.sbs_reads) || (str a "kind" "" = "retobj" && console_reads <> []) in
     let v = if num_of a then (let v = verdict_str r in
                                 if (mode = "event" || mode = "inbox") && v <> "allowed" then "nomark" else v) else "-" in
     emit (Printf.sprintf "sb_probe id=%s mode=%s verdict=%s changed=%d hidden=%d" id mode v
